@@ -3,7 +3,7 @@
    is in the comment above it; what is NOT proved is said there too. *)
 From VP Require Import Base.Tactics Zdd.Model Zdd.ProofsBase Zdd.ProofsPwo Zdd.ProofsArena
   Sase.Model Sase.ProofsBounds Sase.ProofsSound Sase.ProofsSoundEngine Sase.ProofsCompile Sase.ProofsPattern Sase.ProofsKleene Sase.ProofsKeyed
-  Sase.Ref Sase.ProofsExactRef Sase.ProofsExactLoop Sase.ProofsExactRun Sase.ProofsExact Sase.ProofsExactText Sase.ProofsNoPanic Sase.ProofsExactKeys.
+  Sase.Ref Sase.ProofsExactRef Sase.ProofsExactLoop Sase.ProofsExactRun Sase.ProofsExact Sase.ProofsExactText Sase.ProofsNoPanic Sase.ProofsExactKeys Sase.ProofsKleeneEngine.
 From Coq Require Import Permutation.
 
 (* ------------------------------------------------------------------ C01 *)
@@ -96,6 +96,30 @@ Proof. exact enum_all_In. Qed.
 Theorem C03_distinct :
   forall r k p cs all, enum_all r k p cs = Some all -> NoDup cs -> NoDup (map m_combo all).
 Proof. exact enum_all_combos. Qed.
+
+(* The link to the engine: for every pattern with at most one `all` step (the class of C03:
+   A -> all B -> C, trailing all B, leading all A), every configuration and every stream, every
+   Kleene capture held by a live run of the engine state reached satisfies the invariant [KInv]
+   that C03_capture_family / C03_enumeration assume, and a capture that carries a deferred
+   (self-referencing) filter is one that went through the ZDD -- so whenever the engine
+   enumerates, it enumerates over exactly the power set of the events the run accumulated. *)
+Theorem C03_engine_captures_are_power_sets :
+  forall steps negs part max_runs st lim evs en',
+    count_all steps <= 1 ->
+    run_engine (mkCfg (compile steps) negs part max_runs st lim) engine0 evs = Some en' ->
+    forall r, (In r (e_runs en') \/ exists k rs, In (k, rs) (e_parts en') /\ In r rs) -> r_inval r = false ->
+      forall k, r_kc r = Some k -> KInv k /\ (k_deferred k <> None -> k_needs k = true).
+Proof.
+  intros steps negs part mx st lim evs en' C H r Hr Iv k Hk.
+  set (g := mkCfg (compile steps) negs part mx st lim).
+  assert (I0 : eng_RQ (kgood (g_nfa g)) engine0) by (split; constructor).
+  destruct (stream_kgood g (compile_single_kleene steps C) evs engine0 en' I0 H) as [Fr Fp].
+  assert (G : RQ (kgood (g_nfa g)) r).
+  { destruct Hr as [Hr|(k0 & rs & Hp & Hr)].
+    - rewrite Forall_forall in Fr. exact (Fr r Hr).
+    - rewrite Forall_forall in Fp. specialize (Fp (k0, rs) Hp). cbn in Fp. rewrite Forall_forall in Fp. exact (Fp r Hr). }
+  destruct G as [G|G]; [congruence|]. destruct (G k Hk) as (K & _ & D). split; assumption.
+Qed.
 
 (* ------------------------------------------------------------------ C05 *)
 (* For every configuration with max_runs >= 1 and every stream, after every event each
